@@ -17,7 +17,7 @@
 (***************************************************************************)
 EXTENDS OVMHex, Json, IOUtils
 
-CONSTANTS Props     \* subset of {"C15", "C16"}
+CONSTANTS Props     \* {"C15"}, {"C16"} or {"C03"} (property values through collapse_edge)
 
 Tr == ndJsonDeserialize(IOEnv.TRACE)
 
@@ -57,6 +57,11 @@ Lookup(pairs, x) == LET hits == {i \in DOMAIN pairs : pairs[i][1] = x} IN
                     IF hits = {} THEN -99 ELSE pairs[CHOOSE i \in hits : TRUE][2]
 FirstMsg(msgs) == LET bad == {i \in DOMAIN msgs : msgs[i] # ""} IN
                   IF bad = {} THEN "" ELSE msgs[CHOOSE i \in bad : \A k \in bad : i <= k]
+
+(* counters of the VXINFO line *)
+Zero == [col_in |-> 0, col_out |-> 0, col_cells_rebuilt |-> 0, cells_q |-> 0, labelings |-> 0, acc |-> 0, rej |-> 0, props_sized |-> 0]
+Nothing == [msg |-> "", drift |-> 0, d |-> Zero]
+AddInfo(a, b) == [k \in DOMAIN a |-> a[k] + (IF k \in DOMAIN b THEN b[k] ELSE 0)]
 
 (* =============================== C15 ==================================== *)
 (* a cell is inside the contract of the vertex-order queries               *)
@@ -159,6 +164,44 @@ TetState(ln) ==      \* a 'pre' line: state predicates and queries on the seed s
              cells_q |-> IF Has(ln, "q") THEN TetCellsQueried(post, ln.q, QC) ELSE 0,
              labelings |-> IF Has(ln, "q") /\ Has(ln.q, "topo") THEN Len(ln.q.topo) ELSE 0, acc |-> 0, rej |-> 0]]
 
+(* =============================== C03 (through collapse_edge) ============= *)
+(* sizes of all tracked properties on every tetrahedral step; values through  *)
+(* the bijections of CollapseRel on in-contract collapses; vertex values      *)
+(* handle for handle through split_edge / split_face (no vertex is removed)   *)
+PropsAllSized(post, pp, qp) ==
+  /\ Len(qp.props) = Len(pp.props)
+  /\ \A i \in DOMAIN qp.props : qp.props[i].k = pp.props[i].k /\ PropSized(post, qp.props[i])
+C03Line(ln, pp, qp) ==
+  LET c    == ln.c
+      pre  == Obs(pp)
+      post == Obs(qp)
+      mod  == IsModelOp(c)
+      hasP == Has(pp, "props") /\ Has(qp, "props")
+      m    == IF mod THEN TetApply(pre, c) ELSE pre
+      isCol == mod /\ c.op = "collapse_edge"
+      inC  == isCol /\ CollapseInContract(pre, c.a)
+      cands == IF ~inC THEN <<>> ELSE
+               << m.gV, HintSeq(IdVals(pp, "V"), IdVals(qp, "V")), MonotoneVMap(pre, post, From(pre, c.a)) >>
+      okc  == {i \in DOMAIN cands : CollapseRel(pre, c.a, post, ln.ret, cands[i])}
+      isSplit == mod /\ c.op \in {"split_edge", "split_face"}
+      sameV == post.nv = pre.nv /\ post.vdel = pre.vdel
+      cmsg == IF inC /\ okc # {}
+              THEN CollapsePropsFollowMsg(pre, c.a, post, cands[CHOOSE i \in okc : \A k \in okc : i <= k], pp.props, qp.props)
+              ELSE ""
+      msg  == IF ~hasP \/ ~mod \/ ~WellFormed(post) THEN ""
+              ELSE IF ~PropsAllSized(post, pp, qp) THEN "C03:PropSizes:" \o c.op
+              ELSE IF cmsg # "" THEN "C03:CollapsePropsFollow:" \o cmsg
+              ELSE IF isSplit /\ sameV /\ \E i \in DOMAIN qp.props :
+                        qp.props[i].k = "V" /\ \E v \in LiveV(post) : At(qp.props[i].v, v) # At(pp.props[i].v, v)
+                   THEN "C03:SplitVertexValues"
+              ELSE ""
+  IN [msg |-> msg, drift |-> 0,
+      d |-> [Zero EXCEPT !.col_in = IF inC /\ okc # {} THEN 1 ELSE 0,
+                         !.col_out = IF isCol /\ ~(inC /\ okc # {}) THEN 1 ELSE 0,
+                         !.col_cells_rebuilt = IF inC /\ \E x \in LiveC(pre) : From(pre, c.a) \in CellVertSet(pre, x) /\ To(pre, c.a) \notin CellVertSet(pre, x)
+                                               THEN 1 ELSE 0,
+                         !.props_sized = IF hasP /\ mod THEN Len(qp.props) ELSE 0]]
+
 (* =============================== C16 ==================================== *)
 (* the state is inside the contract of the hexahedral queries: no halfface *)
 (* in two cells, face incidences present and correct                       *)
@@ -234,14 +277,12 @@ HexState(ln) ==
              labelings |-> 0, acc |-> 0, rej |-> 0]]
 
 (* ----------------------------- one line -------------------------------- *)
-Zero == [col_in |-> 0, col_out |-> 0, col_cells_rebuilt |-> 0, cells_q |-> 0, labelings |-> 0, acc |-> 0, rej |-> 0]
-Nothing == [msg |-> "", drift |-> 0, d |-> Zero]
-AddInfo(a, b) == [k \in DOMAIN a |-> a[k] + b[k]]
 
 LineCheck(i) ==
   LET ln == Tr[i] IN
   IF ln.e = "call" /\ ln.chk
-  THEN (IF ln.mesh = "tet" /\ Want("C15") THEN TetLine(ln, Tr[ln.pl].post, ln.post)
+  THEN (IF ln.mesh = "tet" /\ Want("C03") THEN C03Line(ln, Tr[ln.pl].post, ln.post)
+        ELSE IF ln.mesh = "tet" /\ Want("C15") THEN TetLine(ln, Tr[ln.pl].post, ln.post)
         ELSE IF ln.mesh = "hex" /\ Want("C16") THEN HexLine(ln, Tr[ln.pl].post, ln.post)
         ELSE Nothing)
   ELSE IF ln.e = "pre"
